@@ -6,7 +6,7 @@ null semantics as stated in property C04: a resolver error or a null in a
 non-null position yields null at exactly that position plus one error with
 that response path; siblings are not disturbed (no null propagation).
 """
-from .workload import ENUM_VALUES, excluded
+from .workload import ENUM_VALUES, effective_kwargs, excluded
 from .world import obj_type
 
 _ENUM_NAME = {internal: name for name, internal in ENUM_VALUES}
@@ -49,7 +49,9 @@ def serialize_leaf(base, v):
     if base == "Color":
         return _ENUM_NAME[v]
     if base == "Stamp":
-        return "S:%d" % v
+        # the custom scalar has no representation for some raw values:
+        # its serialiser hands back null for them
+        return None if v % 13 == 0 else "S:%d" % v
     raise AssertionError(base)
 
 
@@ -148,8 +150,9 @@ class Model:
         if fault == "boom":
             exp.crash = True
             return None
-        raw = self.world.field_value(obj, tname, node.name, node.kwargs,
-                                     path, seq)
+        raw = self.world.field_value(
+            obj, tname, node.name, effective_kwargs(self.spec, tname, node),
+            path, seq)
         return self.complete(fdef.type, raw, path, nodes)
 
     # -- CompleteValue ------------------------------------------------------
